@@ -1,6 +1,7 @@
 """C07 / C08 — events take effect at the right step; vehicle trip state machine.
 Correspondence of theories/Events.v with Events.get_event_steps + Strategy.step, and an independent
 declarative reference (spec_run) evaluated against the implementation's per-step states."""
+import warnings
 import datetime
 import math
 from fractions import Fraction as F
@@ -404,12 +405,72 @@ RULE = ("random event histories: 1-2 connectors, 1-3 vehicles (+ unknown ids), 0
         "non-trivial = distinct history in which an error, a counter or the tracker is touched")
 
 
+def weekly_profile(rep, tier, sd):
+    """the weekly fixed-load forecast (GridConnector.add_avg_fixed_load_week) is built from the same value series: at
+    every step time of the series the value in effect is the last one that started at or before it (the delivery rule of
+    the events model); the profile entry of a (weekday, time-of-day) slot is the mean of the values in effect at the step
+    times falling into it, 0 for slots never visited.  Implementation-level, floats."""
+    import random
+    C.setup_repo_path()
+    from spice_ev.scenario import Scenario
+    rng = random.Random("c07/weekly/%d" % sd)
+    n = 0
+    for _ in range(12 if tier == "quick" else 150):
+        interval = rng.choice([15, 15, 30, 60])
+        step_s = rng.choice([interval * 60, 300, 600, 900, 1800, 3600, 2700])
+        start = datetime.datetime(2023, 3, rng.randint(1, 20), rng.choice([0, 6, 23]), rng.choice([0, 0, 15]),
+                                  tzinfo=datetime.timezone(datetime.timedelta(hours=1)))
+        off = datetime.timedelta(minutes=rng.choice([0, 0, 20, -45]))
+        nser = rng.choice([1, 1, 2])
+        series = {}
+        for k in range(nser):
+            vals = [round(rng.uniform(0, 20), 2) for _ in range(rng.choice([3, 10, 40, 200]))]
+            series["load%d" % k] = {"start_time": scen.iso(start + off), "step_duration_s": step_s, "grid_connector_id": "GC1", "values": vals}
+        js = {"scenario": {"start_time": scen.iso(start), "interval": interval, "n_intervals": 4},
+              "components": {"vehicle_types": {}, "vehicles": {}, "charging_stations": {}, "batteries": {}, "photovoltaics": {},
+                             "grid_connectors": {"GC1": {"max_power": 100, "cost": {"type": "fixed", "value": 0.3}}}},
+              "events": {"grid_operator_signals": [], "fixed_load": series, "local_generation": {}, "vehicle_events": []}}
+        with warnings.catch_warnings():
+            warnings.simplefilter("ignore")
+            s = Scenario(js)
+        got = s.components.grid_connectors["GC1"].avg_fixed_load
+        dt = datetime.timedelta(minutes=interval)
+        slots = int(datetime.timedelta(hours=24) / dt)
+        want = [[0.0] * slots for _ in range(7)]
+        for ser in series.values():
+            st0 = datetime.datetime.fromisoformat(ser["start_time"])
+            evs = [(st0 + datetime.timedelta(seconds=step_s * i), v) for i, v in enumerate(ser["values"] + [0])]
+            acc = {}
+            t = st0
+            while True:
+                cur = [v for (ts, v) in evs if ts <= t]
+                key = (t.weekday(), int((t - t.replace(hour=0, minute=0)) / dt))
+                acc.setdefault(key, []).append(cur[-1])
+                if len(cur) == len(evs):
+                    break
+                t += dt
+            for (wd, sl), vs_ in acc.items():
+                want[wd][sl] += sum(vs_) / len(vs_)
+        n += 1
+        bad = [(wd, sl, got[wd][sl], want[wd][sl]) for wd in range(7) for sl in range(slots) if abs(got[wd][sl] - want[wd][sl]) > 1e-9]
+        if bad:
+            rep.add_violation("C07/weekly-profile", "weekly fixed-load profile differs from the series' values in effect at the step times: "
+                              "(weekday, slot, profile, expected) %s; interval %d min, series step %d s, offset %s"
+                              % (bad[:3], interval, step_s, off), {"unit": "weekly", "case": js})
+    rep.cov["evaluations"] += n
+    rep.notes["weekly_profile_cases"] = n
+
+
 def run(tier, pid="C07"):
-    return corr.standard_run(pid, tier, [UNIT], 500, 6000, TRUSTED, RULE)
+    return corr.standard_run(pid, tier, [UNIT], 500, 6000, TRUSTED, RULE, extra=weekly_profile if pid == "C07" else None)
 
 
 def replay(payload):
     case = payload["input"]["case"]
+    if payload["input"].get("unit") == "weekly":
+        rep = C.Report("C07", "quick")
+        weekly_profile(rep, "quick", C.seed())
+        return 1 if rep.violations else 0
     out = UNIT.run_impl(case)
     v = UNIT.check_property(case, out)
     for cls, what in v:
